@@ -86,6 +86,21 @@ func CalculateDuration(deposit sdk.Coin, flowRate int64) int64 {
 	return 0
 }
 
+// wholeSecondsBetween returns the number of complete seconds from start to end (zero if end is
+// before start). It uses integer arithmetic only: converting a time.Duration to float seconds
+// rounds up once the gap is large enough (e.g. 2^24 s + 0.999999999 s becomes 2^24 + 1), and
+// time.Time.Sub saturates at roughly 292 years.
+func wholeSecondsBetween(start, end time.Time) int64 {
+	seconds := end.Unix() - start.Unix()
+	if end.Nanosecond() < start.Nanosecond() {
+		seconds = seconds - 1
+	}
+	if seconds < 0 {
+		return 0
+	}
+	return seconds
+}
+
 func CalculateAmountToClaim(
 	nowTime,
 	depositZeroTime,
@@ -102,8 +117,7 @@ func CalculateAmountToClaim(
 		remainingDepositValue = sdk.NewCoin(deposit.Denom, sdk.NewInt(0))
 	} else {
 		// calculate based on flow rate and remaining deposit
-		timeSinceLast := nowTime.Sub(lastOutflowTime)
-		secondsSinceLast := int64(timeSinceLast.Seconds())
+		secondsSinceLast := wholeSecondsBetween(lastOutflowTime, nowTime)
 		numCoins := secondsSinceLast * flowRate
 		amountToClaim = sdk.NewCoin(deposit.Denom, sdk.NewIntFromUint64(uint64(numCoins)))
 		if deposit.Amount.GT(amountToClaim.Amount) {
